@@ -12,6 +12,12 @@ func HarnessC17() {
 	depth := zzvrt.Param("DEPTH", 0)
 	n := zzvrt.Param("N", 2)
 	pt, ps := zzGen(mask, depth, true)
+	if ps.hasDefault && ps.nullable {
+		return // recorded finding: default into a pointer field does not compile (C09)
+	}
+	if !zzAssumeDefaultValid(ps) {
+		return
+	}
 	required := zzvrt.Bool()
 	viaRef := false
 	if zzvrt.Param("REF", 1) == 1 {
